@@ -52,6 +52,8 @@ type LoopInfo struct {
 	writes    map[string]bool
 	frameVars []string
 	targets   map[string][]ssa.Value
+	entryState *State
+	fieldTargets map[string][]*ssa.FieldAddr
 }
 
 type deferRec struct {
@@ -493,6 +495,23 @@ func (fr *Frame) loopWrites(li *LoopInfo) map[string]bool {
 		}
 		li.targets[heap] = append(li.targets[heap], v)
 	}
+	// fieldLoad: v is "*(&X.f)" with X loop-invariant
+	fieldLoad := func(v ssa.Value) (*ssa.FieldAddr, bool) {
+		u, ok := v.(*ssa.UnOp)
+		if !ok {
+			return nil, false
+		}
+		fa, ok := u.X.(*ssa.FieldAddr)
+		if !ok || !invariantVal(fa.X) {
+			return nil, false
+		}
+		return fa, true
+	}
+	var pendingFieldLoads []struct {
+		heap string
+		v    ssa.Value
+		fa   *ssa.FieldAddr
+	}
 	for b := range li.blocks {
 		for _, ins := range b.Instrs {
 			one := map[string]bool{}
@@ -507,6 +526,18 @@ func (fr *Frame) loopWrites(li *LoopInfo) map[string]bool {
 					d, v, _, _ := c.mapHeaps(x.Map.Type())
 					addTarget(d, x.Map)
 					addTarget(v, x.Map)
+					targeted = true
+				} else if fa, ok := fieldLoad(x.Map); ok {
+					d, v, _, _ := c.mapHeaps(x.Map.Type())
+					pendingFieldLoads = append(pendingFieldLoads, struct {
+						heap string
+						v    ssa.Value
+						fa   *ssa.FieldAddr
+					}{d, x.Map, fa}, struct {
+						heap string
+						v    ssa.Value
+						fa   *ssa.FieldAddr
+					}{v, x.Map, fa})
 					targeted = true
 				}
 			case *ssa.Call:
@@ -530,9 +561,33 @@ func (fr *Frame) loopWrites(li *LoopInfo) map[string]bool {
 			}
 		}
 	}
+	li.fieldTargets = map[string][]*ssa.FieldAddr{}
+	for _, p := range pendingFieldLoads {
+		pt := p.fa.X.Type().Underlying().(*types.Pointer).Elem()
+		fh, _, _ := c.fieldHeap(pt, p.fa.Field)
+		if ws[fh] {
+			// the field itself may change in the loop: not a stable target
+			general[p.heap] = true
+			continue
+		}
+		dup := false
+		for _, o := range li.fieldTargets[p.heap] {
+			if o.X == p.fa.X && o.Field == p.fa.Field {
+				dup = true
+			}
+		}
+		if !dup {
+			li.fieldTargets[p.heap] = append(li.fieldTargets[p.heap], p.fa)
+		}
+	}
 	for h := range li.targets {
 		if general[h] {
 			delete(li.targets, h)
+		}
+	}
+	for h := range li.fieldTargets {
+		if general[h] {
+			delete(li.fieldTargets, h)
 		}
 	}
 	return ws
@@ -587,6 +642,7 @@ func (fr *Frame) enterLoop(li *LoopInfo) (Term, *State) {
 		name = fmt.Sprintf("%s/inl:%s/loop%d", funcKey(c.top), funcKey(fr.fn), li.ordinal)
 	}
 	li.writes = fr.loopWrites(li)
+	li.entryState = stEntry.clone()
 	// frame invariants for location heaps not declared modifiable by the top-level contract
 	for _, w := range sortedKeysOf(li.writes) {
 		if isLocationHeap(w) && !c.topModifies(w) {
@@ -619,12 +675,18 @@ func (fr *Frame) enterLoop(li *LoopInfo) (Term, *State) {
 		if _, ok := c.heapSorts[w]; !ok {
 			continue
 		}
-		if tg, ok := li.targets[w]; ok && len(tg) > 0 {
+		if len(li.targets[w])+len(li.fieldTargets[w]) > 0 {
 			// targeted havoc: only the entries of the loop-invariant objects change
 			cur := c.get(stH, w)
 			inner := innerSortOf(c.heapSorts[w])
-			for _, v := range tg {
+			for _, v := range li.targets[w] {
 				cur = Store(cur, fr.val(v), c.fresh(w+"_obj", inner))
+			}
+			for _, fa := range li.fieldTargets[w] {
+				pt := fa.X.Type().Underlying().(*types.Pointer).Elem()
+				fh, fs, _ := c.fieldHeap(pt, fa.Field)
+				ref := Select(c.get(stEntry, fh), fr.val(fa.X), fs)
+				cur = Store(cur, ref, c.fresh(w+"_obj", inner))
 			}
 			c.set(stH, w, cur)
 			continue
@@ -872,6 +934,7 @@ func (fr *Frame) evalCtxAt(st, old *State, li *LoopInfo, phiOverride map[*ssa.Ph
 	if li != nil {
 		x.visited = li.visited
 		x.visKey = li.visKey
+		x.entrySt = li.entryState
 	}
 	var at *ssa.BasicBlock
 	if li != nil {
@@ -881,6 +944,12 @@ func (fr *Frame) evalCtxAt(st, old *State, li *LoopInfo, phiOverride map[*ssa.Ph
 		ov := phiOverride
 		if cur.inOld && cur.stepMode {
 			ov = nil
+		}
+		if cur.atEntry && li != nil {
+			ov = map[*ssa.Phi]Term{}
+			for p, t := range li.entryPhi {
+				ov[p] = t
+			}
 		}
 		return fr.lookupLocal(name, at, ov, cur)
 	}
